@@ -126,8 +126,10 @@ pub struct Site {
 }
 
 const LEVELS: [&str; 5] = ["", "debug", "info", "warn", "error"];
-const PLAIN: [&str; 24] = [
+const PLAIN: [&str; 48] = [
     "a", "b", "c", "d", "e", "f", "x", "y", "z", "k1", "k2", "user", "id", "m", "zz", "aa", "_u", "ab", "B", "Zed", "n0", "é", "ünï", "q9",
+    // (for wide sites)
+    "bb", "cc", "dd", "ee", "ff", "gg", "hh", "ii", "jj", "kk", "ll", "mm", "nn", "oo", "pp", "qq", "rr", "ss", "tt", "uu", "vv", "ww", "xx", "yy",
 ];
 const RAW: [&str; 5] = ["type", "match", "fn", "loop", "mod"];
 const RENAMES: [&str; 22] = [
@@ -178,10 +180,16 @@ fn raw_key() -> impl Strategy<Value = RawKey> {
 pub fn site() -> impl Strategy<Value = Site> {
     (
         (0u8..10, 0u8..8, 0u8..3, 0u8..2, any::<bool>()),
+        // mostly 1-8 keys, a solid share of 9-16 and of 17-40 (size thresholds in the lookup)
         prop_oneof![
-            1 => prop::collection::vec(raw_key(), 1..=2),
-            5 => prop::collection::vec(raw_key(), 3..=5),
-            2 => prop::collection::vec(raw_key(), 6..=8),
+            4 => prop::collection::vec(raw_key(), 1..=2),
+            20 => prop::collection::vec(raw_key(), 3..=5),
+            8 => prop::collection::vec(raw_key(), 6..=8),
+            7 => prop::collection::vec(raw_key(), 9..=16),
+            2 => prop::collection::vec(raw_key(), 17..=17),
+            3 => prop::collection::vec(raw_key(), 18..=24),
+            2 => prop::collection::vec(raw_key(), 25..=32),
+            2 => prop::collection::vec(raw_key(), 33..=40),
         ],
         prop::option::weighted(0.35, (0u8..3, prop::collection::vec((any::<u32>(), prop::bool::weighted(0.2)), 1..=3))),
         prop::collection::vec((any::<u32>(), prop::bool::weighted(0.2)), 0..=2),
@@ -355,6 +363,12 @@ impl Site {
         matches!(self.kind, Kind::Emit | Kind::Format) && self.level == 0 && self.keys.len() == 1 && self.keys[0].cfg.is_some()
     }
 
+    /// Number of elements of the array the macro builds (cfg'd-out keys are not in it, optional-None ones are,
+    /// `lvl` is for the levelled macros).
+    pub fn array_len(&self) -> usize {
+        self.keys.iter().filter(|k| k.cfg != Some(false)).count() + usize::from(self.level != 0 && self.kind != Kind::EmitEvt)
+    }
+
     pub fn nontrivial(&self) -> bool {
         self.keys.len() >= 3 && self.keys.iter().any(|k| k.rename.is_some() || k.optional.is_some() || k.cfg.is_some())
     }
@@ -362,6 +376,20 @@ impl Site {
     /// One-step reductions for delta debugging.
     pub fn reductions(&self) -> Vec<Site> {
         let mut out = Vec::new();
+        // wide sites: halves and every other key first
+        if self.keys.len() >= 6 {
+            let n = self.keys.len();
+            for keep in [0..n / 2, n / 2..n] {
+                let mut s = self.clone();
+                s.keys = self.keys[keep].to_vec();
+                out.push(s);
+            }
+            for parity in 0..2 {
+                let mut s = self.clone();
+                s.keys = self.keys.iter().enumerate().filter(|(i, _)| i % 2 == parity).map(|(_, k)| k.clone()).collect();
+                out.push(s);
+            }
+        }
         if self.keys.len() > 1 {
             for i in 0..self.keys.len() {
                 let mut s = self.clone();
@@ -821,7 +849,7 @@ impl Runner {
     /// program per round; a reduction that fails with the same signature replaces the site.
     pub fn shrink(&self, site: &Site, sig: &str) -> Site {
         let mut cur = site.clone();
-        for _round in 0..12 {
+        for _round in 0..30 {
             let cands = cur.reductions();
             if cands.is_empty() {
                 break;
@@ -879,6 +907,18 @@ impl Runner {
         cx.class_if(site.base.is_some(), "site:base-props");
         cx.class_if(!site.ambient.is_empty(), "site:ambient");
         cx.class_if(site.reorders_sort(), "renamed-reorders-sort");
+        let n = site.array_len();
+        cx.class(match n {
+            0..=8 => "site-keys:1-8",
+            9..=16 => "site-keys:9-16",
+            17..=32 => "site-keys:17-32",
+            _ => "site-keys:>32",
+        });
+        cx.class_if(n == 16 || n == 17, "site-keys:16|17");
+        cx.class_if(n >= 9 && site.reorders_sort(), "site-keys>=9-with-reordering-rename");
+        cx.class_if(n >= 17 && site.reorders_sort(), "site-keys>=17-with-reordering-rename");
+        cx.class_if(n >= 33 && site.reorders_sort(), "site-keys>=33-with-reordering-rename");
+        cx.class_if(n >= 17 && !site.reorders_sort(), "site-keys>=17-sorted");
         cx.nontrivial(site.nontrivial());
         let outcome = match self.cached(site) {
             Some(o) => o,
